@@ -68,6 +68,13 @@ def main():
     a = ap.parse_args()
     if a.cmd == "setup":
         sys.exit(setup())
+    # one check (or one seeded-change run) at a time per machine: every check rebuilds from /repo's
+    # working tree, so a concurrently applied seeded change would leak into this run
+    lockf = None
+    if not os.environ.get("SGV_LOCK_HELD"):
+        import fcntl
+        lockf = open("/tmp/sgv-repo.lock", "w")
+        fcntl.flock(lockf, fcntl.LOCK_EX)
     seed = int(os.environ.get("VERIF_SEED", "1"))
     tier = a.tier if a.tier in ("quick", "thorough") else "quick"
     mod = importlib.import_module("props." + a.prop.lower())
